@@ -228,3 +228,153 @@ def disk_control_flow(sym, j, wrap, exc='ValueError'):
         if wrap: sym.check(all(v == 0 for v in cacher._array) and all(v == 0 for v in cacher._locks.values()), "locks still held after all callers left")
     finally:
         shutil.rmtree(d, ignore_errors=True)
+
+# ---------------------------------------------------------------------------------------------------
+# Bounded-schedule cross-check of the rely/guarantee argument: several REAL callers on simulated lock/sleep
+from contextlib import contextmanager as _cm
+
+class _SimLock:
+    def __init__(self, sched): self.s, self.held = sched, False
+    def __enter__(self):
+        self.s.wait(lambda: not self.held, 'lock'); self.held = True
+    def __exit__(self, *a): self.held = False
+
+class _SimTime:
+    def __init__(self, sched): self.s = sched
+    def sleep(self, s): self.s.wait(None, 'sleep')
+    def time(self): return 0.0
+
+_PARTIAL = object()
+
+class _SimCache:
+    """inner cache with yield points inside every operation; records protocol violations instead of raising"""
+    def __init__(self, sched, cacher_ref, bad, slot_of):
+        self.s, self.ref, self.bad, self.slot_of = sched, cacher_ref, bad, slot_of
+        self.d = {}; self.populations = {}; self.removals = {}
+    def _arr(self, key): return self.ref[0]._array[self.slot_of[key]]
+    def __contains__(self, key):
+        self.s.wait(None, 'contains')
+        return key in self.d and self.d[key] is not _PARTIAL
+    def rmv(self, key):
+        if self._arr(key) != -1: self.bad.append(f"inner rmv({key}) without the write lock (counter {self._arr(key)})")
+        self.s.wait(None, 'rmv')
+        self.d.pop(key, None); self.removals[key] = self.removals.get(key,0) + 1
+    def get_set(self, key, getter):
+        if getter is None:
+            if self._arr(key) < 1: self.bad.append(f"inner read of {key} without a read lock (counter {self._arr(key)})")
+            v = self.d.get(key, None)
+            if v is None or v is _PARTIAL: self.bad.append(f"a reader was handed a {'partial' if v is _PARTIAL else 'missing'} entry for {key}")
+            return self._ctx(key, v)
+        if self._arr(key) != -1: self.bad.append(f"populating {key} without the write lock (counter {self._arr(key)})")
+        if key in self.d: self.bad.append(f"getter called although {key} is cached")
+        self.d[key] = _PARTIAL
+        try:
+            items = []
+            for x in (getter() if callable(getter) else getter):
+                items.append(x)
+                self.s.wait(None, 'populate')
+                if self._arr(key) != -1: self.bad.append(f"write lock on {key} lost while populating (counter {self._arr(key)})")
+        except BaseException:
+            self.d.pop(key, None)
+            raise
+        self.d[key] = list(items); self.populations[key] = self.populations.get(key,0) + 1
+        return self._ctx(key, self.d[key])
+    @_cm
+    def _ctx(self, key, v):
+        yield v
+
+def _c19_sched_params(tier):
+    progs = [(('get','k1'),('get','k1')), (('get','k1'),('rmv','k1')), (('rmv','k1'),('get','k1')), (('getx','k1'),('get','k1')), (('get','k1'),('get','k2')), (('get','k1'),('rmv','k1'),('get','k1')), (('getb','k1'),('rmv','k1')), (('getb','k1'),('get','k1'))]
+    if tier == 'quick': return [dict(prog=list(map(list,p)), delays=1) for p in progs]
+    more = [(('get','k1'),('get','k1'),('get','k1')), (('rmv','k1'),('rmv','k1'),('get','k1')), (('getx','k1'),('rmv','k1'),('get','k1')), (('get','k1'),('get','k2'),('rmv','k1'))]
+    return [dict(prog=list(map(list,p)), delays=2) for p in progs+more] + [dict(prog=list(map(list,p)), delays=3) for p in progs[:4]]
+
+@obligation('C19','schedules', bounds={'quick':"cross-check of the rely/guarantee argument: 2-3 REAL callers (threads holding a baton), each doing one operation (get_set, get_set with a raising getter, get_set whose body raises, rmv) followed by a get_set, on one key (or two keys sharing a slot / in different slots), run the real ConcurrentCacher on a simulated lock, sleep and inner cache with yield points inside every inner operation; delay-bounded schedule (run-to-block round-robin + 1 delay at a z3-chosen choice point)",
+                                       'thorough':"2 delays (3 for four programs); 10 programs"},
+            functions=FUNCS, params=_c19_sched_params, classify=_classify, budget={'quick':100,'thorough':1500},
+            stubs=['lock -> baton-aware mutex; coba.context.cachers.time.sleep -> yield; inner cache -> dict with yield points inside contains/populate/rmv and protocol monitors; ConcurrentCacher._index -> 2-valued stub'])
+def schedules(sym, prog, delays):
+    from vf import sim
+    sched = sim.Sched()
+    collide = sym.flag('collide')
+    slot_of = {'k1': 3, 'k2': 3 if collide else 5}
+    bad, ref = [], [None]
+    inner = _SimCache(sched, ref, bad, slot_of)
+    cacher = ConcurrentCacher(inner, list=[0]*2**16, lock=_SimLock(sched))
+    cacher._index = lambda key: slot_of[key]
+    ref[0] = cacher
+    preload = sym.flag('preloaded')
+    if preload: inner.d['k1'] = ['v0','v1']
+    old_time = cc.time
+    cc.time = _SimTime(sched)
+    D = [sym.int(f'delay{k}', 0, 120) for k in range(delays)]
+    for a,b in zip(D, D[1:]): sym.assume(a <= b)
+    results = {}
+    def getter_ok(tag):
+        def g():
+            yield f'{tag}0'; yield f'{tag}1'
+        return g
+    def getter_bad():
+        yield 'x0'
+        raise ValueError("getter failed")
+    def caller(i, op, key):
+        def run():
+            out = []
+            for step,(o,k) in enumerate([(op,key),('get',key)]):
+                try:
+                    if o == 'rmv': cacher.rmv(k); out.append(('rmv',None))
+                    else:
+                        with cacher.get_set(k, getter_bad if o == 'getx' else getter_ok(f'c{i}s{step}')) as v:
+                            sched.wait(None, 'body')
+                            if o == 'getb': raise ValueError("body failed")
+                            got = list(v)
+                            sched.wait(None, 'body')
+                            if cacher._array[slot_of[k]] < 1: bad.append(f"caller {i} inside its block on {k} but the counter is {cacher._array[slot_of[k]]}")
+                            out.append(('get', got))
+                except ValueError as e: out.append(('raised', str(e)))
+                except CobaException as e: out.append(('refused', str(e)))
+            results[i] = out
+        return run
+    actors = [sched.spawn(f'caller{i}', caller(i, op, key)) for i,(op,key) in enumerate(prog)]
+    st = dict(used=0, cp=0)
+    def choose(step, enabled, d):
+        if len(enabled) < 2: return d
+        k = 0
+        while st['used'] < delays and bool(D[st['used']] == st['cp']):
+            st['used'] += 1; k += 1
+        st['cp'] += 1
+        # spinning callers are always runnable: rotate the default so that a holder of a lock gets to run (fair round-robin)
+        return (d + k) % len(enabled)
+    try:
+        # run-to-block would let a spinning caller run forever: make 'sleep' a forced context switch by treating the sleeper as blocked for one step
+        r = sched.run(_fair(choose, sched), lambda: all(a.done for a in actors), max_steps=1500)
+    finally:
+        sched.kill()
+        cc.time = old_time
+    trace = ' '.join(sched.trace[-20:])
+    sym.check(r != 'deadlock', f"deadlock: no caller can run (prog={prog}); last steps: {trace}")
+    sym.check(r != 'steps', f"no progress: callers still spinning after 1500 steps - a lock was never released (prog={prog}); last steps: {trace}")
+    errs = [(a.name, repr(a.error)) for a in actors if a.error is not None]
+    sym.check(not errs, f"caller failed unexpectedly: {errs[:1]}")
+    sym.check(not bad, f"protocol: {bad[:1]}")
+    for i,(op,key) in enumerate(prog):
+        out = results.get(i, [])
+        sym.check(len(out) == 2, f"caller {i} did not finish both operations: {out}")
+        for kind,val in out:
+            if kind == 'get': sym.check(len(val) == 2 and val[0][:-1] == val[1][:-1], f"caller {i} read an incomplete or mixed value {val}")
+            sym.check(kind != 'refused', f"caller {i} was refused: {val}")
+        if op == 'getx' and out: sym.check(out[0][0] in ('raised','get'), f"caller {i}: raising getter: {out[0]}")
+    for key in ('k1','k2'):
+        npop, nrm = inner.populations.get(key,0), inner.removals.get(key,0)
+        sym.check(npop <= nrm + (0 if (preload and key == 'k1') else 1), f"{key} was populated {npop} times with {nrm} removals (preloaded={preload and key == 'k1'}): a getter ran although the entry was cached")
+    sym.check(all(cacher._array[s] == 0 for s in set(slot_of.values())), f"counters not released at the end: {[cacher._array[s] for s in set(slot_of.values())]}")
+    sym.check(all(v == 0 for v in cacher._locks.values()), f"own lock entries not released at the end: {dict(cacher._locks)}")
+
+def _fair(choose, sched):
+    """wrap a chooser: an actor that has just yielded at 'sleep' is skipped once (it would otherwise spin forever under run-to-block)"""
+    def ch(step, enabled, d):
+        cur = enabled[d]
+        if getattr(cur, 'label', '') == 'sleep' and len(enabled) > 1 and sched.trace and sched.trace[-1] == cur.name:
+            d = (d + 1) % len(enabled)
+        return choose(step, enabled, d)
+    return ch
